@@ -161,6 +161,7 @@ package redis
 
 //@ func (*Reader).buffered
 //@   prop C10 C11
+//@   requires readerRI(b)
 //@   modifies nothing
 //@   ensures result == b.w - b.r
 
@@ -199,6 +200,7 @@ package redis
 //@   ensures @ri readerRI(b) && b.buf == old(b.buf)
 //@   ensures @line result1 == nil ==> len(result0) >= 1 && base(result0) == base(b.buf)
 //@   ensures @full-or-error result1 != nil ==> (len(result0) == 0 || result0 == b.buf)
+//@   ensures @error-kind result1 != nil ==> (result1 == bufio.ErrBufferFull && result0 == b.buf) || (b.err != nil && result1 == b.err && isnil(result0))
 //@   loop 0 invariant readerRI(b) && b.buf == old(b.buf)
 
 //@ func (*Reader).ReadBytes
@@ -207,7 +209,9 @@ package redis
 //@   modifies all
 //@   ensures @ri readerRI(b)
 //@   ensures @line result1 == nil ==> len(result0) >= 1
-//@   loop 0 invariant readerRI(b) && 0 <= size
+//@   loop 0 invariant readerRI(b) && 0 <= size && (!isnil(last) ==> size >= len(last) && len(last) >= 1)
+//@   loop 0 assume size <= 4611686018427387904 && len(b.buf) <= 4611686018427387904
+//@   loop 1 invariant 0 <= n && n <= len(buf) && len(buf) == size && !isnil(last) && size >= len(last) && len(last) >= 1
 
 //@ func (*Reader).ReadFull
 //@   prop C10 C11
